@@ -573,13 +573,14 @@ class JSONSchemaMaker:
             }
             self.names[node.unique_name] = json_schema
 
-            properties_schema = {
-                c.unique_name: self.build_json_schema(c, path + (cast(str, node.name),))
-                for c in node.children
-            }
-            # NOTE! Side effect of ``self.build_json_schema()`` is to add properties.
-            # Our new properties must preserve those via an update.
-            json_schema["properties"].update(properties_schema)
+            # NOTE! Side effect of ``self.build_json_schema()`` is to add properties
+            # (the ``oneOf`` of a REDEFINES). Insert each child as it is built so the
+            # ``oneOf`` lands where the redefined item is, not ahead of its siblings.
+            for c in node.children:
+                child_schema = self.build_json_schema(
+                    c, path + (cast(str, node.name),)
+                )
+                json_schema["properties"][c.unique_name] = child_schema
 
         else:
             # Elementary
